@@ -98,8 +98,8 @@ def suspendedAtTop : DbgState :=
     breakPoints := [], sources := [], breakOnStart := false, ownersSet := true, mutexLogSet := true,
     threadPoolSet := true, globalScope := true, globals := [], lock := 0 }
 
-/-- Even the code before a44f74f releases the lock when it panics (the unlock is deferred):
-    for both guard settings the lock count after a command equals the one before. -/
+/-- Witness (one state, one input — a test, not a theorem about all inputs): the code before
+    a44f74f panics in `cont 1 stepout` at depth 0 with the lock released (the unlock is deferred). -/
 theorem lock_released_even_unrepaired :
     (handleG { lockstateNil := false, stepOutLen := false, errDataConv := false, injectOutside := false } ⟨fun _ => .ok, fun _ _ => true⟩
       suspendedAtTop
